@@ -61,14 +61,24 @@ def run(ctx):
         for nt in thread_counts:
             for s in seeds:
                 sizes = [[ctx.rng.choice(SIZES) for _ in range(k_msgs)] for _ in range(nt)]
+                # every second asyncio run writes to a socket that takes at most 1500 / 700 bytes per send() call
+                cap = (1500, 700)[(s // 2) % 2] if (reactor == "asyncio" and s % 2 == 1) else 0
                 try:
-                    ev = pq.run_reactor(reactor, nt, k_msgs, sizes, ctx.seed * 1000 + s, timeout=20 if ctx.quick else 60)
+                    ev = pq.run_reactor(reactor, nt, k_msgs, sizes, ctx.seed * 1000 + s, timeout=20 if ctx.quick else 60, cap=cap)
                 except RuntimeError as ex:
+                    if cap:
+                        # with short writes a broken writer can lose or damage bytes so badly that the stream cannot be
+                        # parsed back into tagged messages: that is a verdict on the driver, not on the machinery
+                        ctx.violation("%s reactor, %d threads, socket taking at most %d bytes per send(): the byte stream "
+                                      "could not be read back (%s)" % (reactor, nt, cap, str(ex)[:300]),
+                                      replay={"reactor": reactor, "threads": nt, "sizes": sizes, "seed": ctx.seed * 1000 + s, "cap": cap},
+                                      signature="stream:unreadable:short-writes")
+                        continue
                     raise tlc.MachineryError("cannot run the %s reactor: %s" % (reactor, ex))
                 for e in ev:
                     if e["e"] == "End":
                         e["pushed"] = e["pushed"] + [0] * (MAXT - len(e["pushed"]))
-                runs.append({"reactor": reactor, "threads": nt, "seed": s, "events": ev})
+                runs.append({"reactor": reactor, "threads": nt, "seed": s, "events": ev, "cap": cap})
     traces = [r["events"] for r in runs]
     good = len(traces)
     # binding self-test: swap two chunks of different messages / drop a chunk -> must be rejected
